@@ -96,6 +96,10 @@ func runC06(w *W, i uint64) {
 		longLen = max(200, 900_000/n0.States())
 		w.Count("event:long-haystack-shortened-for-large-nfa", 1)
 	}
+	if re0 != nil && canBeEmpty(re0) {
+		// enumerating APIs restart the search at every position of a nullable pattern: quadratic in the haystack
+		longLen = min(longLen, 300)
+	}
 	for len(long) < longLen {
 		long = append(long, long...)
 		long = append(long, ' ')
